@@ -121,6 +121,7 @@ def run(rep: Report, tier: str) -> None:  # noqa: C901
 
     # ---- R04.6 / R04.7: Join.validate and visit_JoinOp evaluated (E6) on abstract operand structures ----
     _join_model(P, rep, vj)
+    transp.builder_contract(P, rep, "R04.2", parts="j")
     rep.assumptions = ["DuckDB join semantics for the emitted ON clause", "SQLBuilder.join writes `<keyword> JOIN` from its join_type argument (read from the source)"]
 
 
